@@ -35,6 +35,7 @@ type Contract struct {
 	Invariants     map[int][]*Clause
 	Iterations     map[int][]*Clause
 	Variants       map[int]*Clause
+	DeadReturns map[int]string // return ordinal -> why it cannot be reached (no vacuity guard there)
 	Decreases      *Clause
 	Pure           bool
 	AssignsNothing bool
@@ -114,7 +115,7 @@ type TypeInv struct {
 	Clause   *Clause
 }
 
-var clauseKeywords = map[string]bool{"stable": true, "reads-model": true, "names": true, "iteration": true, "variant": true, "requires": true, "ensures": true, "invariant": true, "decreases": true, "property": true,
+var clauseKeywords = map[string]bool{"stable": true, "reads-model": true, "names": true, "iteration": true, "variant": true, "dead-return": true, "requires": true, "ensures": true, "invariant": true, "decreases": true, "property": true,
 	"pure": true, "assigns": true, "trusted": true, "noinline": true, "inline": true, "func": true, "sweep": true, "immutable": true, "spec": true,
 	"axiom": true, "flagset": true, "safeonly": true, "immutable-family": true, "method-pre": true, "funcvalue-pre": true, "entry": true, "type-invariant": true, "child-invariant": true, "elems-nonnil": true, "callback-parametric": true, "json-hidden": true, "json-visible": true, "pass-order": true, "observe-args": true, "map-order": true}
 
@@ -336,6 +337,25 @@ func (w *World) parseContractFile(cs *ContractSet, file string) error {
 			case "decreases":
 				cur.Decreases = c
 			}
+		case "dead-return":
+			// dead-return n: reason -- the n-th return of the function cannot be reached, for the stated reason (a
+			// fact about the data the function branches on, e.g. the contents of a constant table): its vacuity guard
+			// is not generated. Listed in the evidence as a declared assumption.
+			if cur == nil {
+				return fmt.Errorf("%s:%d: dead-return outside func", file, rl.line)
+			}
+			k := strings.Index(rest, ":")
+			if k < 0 {
+				return fmt.Errorf("%s:%d: dead-return needs 'n: reason'", file, rl.line)
+			}
+			n, err := strconv.Atoi(strings.TrimSpace(rest[:k]))
+			if err != nil {
+				return fmt.Errorf("%s:%d: bad return ordinal", file, rl.line)
+			}
+			if cur.DeadReturns == nil {
+				cur.DeadReturns = map[int]string{}
+			}
+			cur.DeadReturns[n] = strings.TrimSpace(rest[k+1:])
 		case "variant":
 			// variant n: expr  -- loop n terminates: expr is a non-negative integer at the head of every iteration that
 			// reaches a back edge, and strictly smaller when the back edge is taken
